@@ -159,3 +159,27 @@ CONTRACTS['cores_are_nested_bd'] = Contract(
 CONTRACTS['cores_are_nested_bd'].source = SRC
 CONTRACTS['cores_are_nested_bd'].callees = {'kcore_bd': callee_from_clauses('kcore_bd', ['CIJ', 'k'], list(_KD.requires), [e for e in _KD.ensures if e[0] != 'argument-untouched'], [_M, ('int',)],
                                                                               ghosts={'n0': 'len(CIJ)', 'S': 'Scur'}, rebinds={'alive': ('bvec', 'n0')})}
+
+# s-cores (strength): for 0 < s1 <= s2 the s2-core lies inside the s1-core (symmetric non-negative weights)
+_KS = _k.CONTRACTS['score_wu']
+
+
+def _setup_nest_s(eng, st):
+    n = z3.Int('n0c')
+    st.pc.append(n >= 1)
+    st.ghost['n0'] = n
+    st.env['CIJ'] = alloc(st, 2, z3.Const('C0', A2R), (n, n), REAL)
+    st.env['s1'] = z3.Real('s1_in')
+    st.env['s2'] = z3.Real('s2_in')
+
+
+CONTRACTS['score_cores_are_nested'] = Contract(
+    'corollary_src.distances', 'score_cores_are_nested', ['CIJ', 's1', 's2'], setup=_setup_nest_s,
+    requires=[('bounds-ordered-and-positive', 'And(s1 > 0, s1 <= s2)'), ('weights-nonnegative', _N2 % "CIJ[v, w] >= 0"), ('undirected', _N2 % "CIJ[v, w] == CIJ[w, v]")],
+    ghost_before={'B, sb = score_wu(*': "Scur = lam1(lambda q: False, n0)",
+                  'A, sa = score_wu(*': "Scur = lam1(lambda q: csum(B, q, n0) > 0, n0); assume(lemma_sum_sub(B, CIJ, Scur, n0)); "
+                                       "check('both-ends-of-a-connection-of-the-larger-core-are-in-S', " + (_N2 % "implies(B[v, w] != 0, And(Scur[v], Scur[w], CIJ[v, w] != 0))") + ")"},
+    ensures=[('the-larger-core-lies-inside-the-smaller-one', _N2 % "implies(result(1)[v, w] != 0, result(0)[v, w] != 0)")])
+CONTRACTS['score_cores_are_nested'].source = SRC
+CONTRACTS['score_cores_are_nested'].callees = {'score_wu': callee_from_clauses('score_wu', ['CIJ', 's'], list(_KS.requires), [e for e in _KS.ensures if e[0] != 'argument-untouched'], [_M, ('int',)],
+                                                                                 ghosts={'n0': 'len(CIJ)', 'S': 'Scur'}, rebinds={'alive': ('bvec', 'n0')})}
